@@ -560,4 +560,289 @@ theorem setOri_oriEq (o : Obj W) (i : Nat) (x : Int) : OriEq (exec o (.setOri i 
   · exact ⟨rfl, rfl, rfl, updEdge_ori_strip x i o.nb.edges, rfl, rfl, rfl, rfl⟩
 
 end ori
+/-! ### any history, orientation assignments included; the backward loop always ends -/
+section history
+variable {W : Type} [LT W] [DecidableLT W] [Add W] [OfNat W 0]
+
+theorem OriEq.symm {o o' : Obj W} (h : OriEq o o') : OriEq o' o :=
+  ⟨h.n.symm, h.nodes.symm, h.next.symm, h.edges.symm, h.geom.symm, h.flags.symm, h.seen.symm, h.dict.symm⟩
+
+theorem OriEq.trans {o o' o'' : Obj W} (h : OriEq o o') (h' : OriEq o' o'') : OriEq o o'' :=
+  ⟨h.n.trans h'.n, h.nodes.trans h'.nodes, h.next.trans h'.next, h.edges.trans h'.edges, h.geom.trans h'.geom,
+   h.flags.trans h'.flags, h.seen.trans h'.seen, h.dict.trans h'.dict⟩
+
+/-- the calls of a history without its orientation assignments -/
+def dropOri (ops : List (Op W)) : List (Op W) := ops.filter (fun op => !op.isSetOri)
+
+theorem dropOri_clean (ops : List (Op W)) : ∀ op ∈ dropOri ops, op.isSetOri = false := by
+  intro op h
+  unfold dropOri at h
+  have := (List.mem_filter.1 h).2
+  simpa using this
+
+/-- the state after a history = the state after the same history without its orientation assignments, up to the
+orientation attributes -/
+theorem runOps_dropOri : ∀ (ops : List (Op W)) (o o' : Obj W), OriEq o o' → OriEq (runOps o ops).2 (runOps o' (dropOri ops)).2 := by
+  intro ops
+  induction ops with
+  | nil => intro o o' h; exact h
+  | cons op ops ih =>
+    intro o o' h
+    cases hop : op.isSetOri with
+    | true =>
+      have hd : dropOri (op :: ops) = dropOri ops := by unfold dropOri; simp [hop]
+      rw [hd]
+      simp only [runOps]
+      apply ih
+      cases op with
+      | setOri i x => exact (setOri_oriEq o i x).trans h
+      | _ => cases hop
+    | false =>
+      have hd : dropOri (op :: ops) = op :: dropOri ops := by unfold dropOri; simp [hop]
+      rw [hd]
+      simp only [runOps]
+      exact ih _ _ (exec_oriEq o o' h op).1
+
+/-- the `while node.antecedent != ""` loop ends when the antecedents are ranked: every antecedent is a settled node whose
+recorded edge is still in `EDGES`, and the antecedent of a settled node has a smaller rank -/
+theorem backAuxT_ends (net : Net W) (geo : GeoT) (st : St W) (rk : Nat → Nat)
+    (h1 : ∀ v a i, st.pred v = some (a, i) → st.vis a = true ∧ (findEdge net i).isSome = true)
+    (h3 : ∀ v a i, st.pred v = some (a, i) → st.vis v = true → rk a < rk v) :
+    ∀ (f v : Nat) (nodes : List Nat) (track : Seq.Track), 1 ≤ f → (∀ a i, st.pred v = some (a, i) → rk a + 2 ≤ f) →
+      backAuxT net geo st f v nodes track ≠ .diverge := by
+  intro f
+  induction f with
+  | zero => intro v nodes track h; omega
+  | succ f ih =>
+    intro v nodes track _ hb
+    unfold backAuxT
+    cases hp : st.pred v with
+    | none => intro h; cases h
+    | some p =>
+      obtain ⟨a, i⟩ := p
+      simp only []
+      obtain ⟨hva, hfe⟩ := h1 v a i hp
+      have hba := hb a i hp
+      cases hf : findEdge net i with
+      | none => rw [hf] at hfe; cases hfe
+      | some e =>
+        simp only []
+        apply ih
+        · omega
+        · intro b j hpa
+          have := h3 a b j hpa hva
+          omega
+
+/-- the flags on the nodes are ranked antecedent chains through edges of `EDGES` (true of the flags of any forward pass on
+an earlier content: edges are never removed) -/
+def ChainOK (o : Obj W) : Prop :=
+  ∃ rk : Nat → Nat,
+    (∀ v a i, o.flags.pred v = some (a, i) → o.flags.vis a = true ∧ hasEdge o i = true) ∧
+    (∀ a, o.flags.vis a = true → rk a < o.n) ∧
+    (∀ v a i, o.flags.pred v = some (a, i) → o.flags.vis v = true → rk a < rk v)
+
+theorem findEdge_isSome (o : Obj W) (i : Nat) (h : hasEdge o i = true) : (findEdge (netOf o) i).isSome = true := by
+  unfold findEdge netOf
+  rw [List.find?_isSome]
+  unfold hasEdge at h
+  exact List.any_eq_true.1 h
+
+theorem backward_ends (o : Obj W) (hc : ChainOK o) (t : Nat) (b : BackT) (lab : Option W)
+    (h : backward o t = .path b lab) : b ≠ .diverge := by
+  obtain ⟨rk, c1, c2, c3⟩ := hc
+  unfold backward at h
+  split at h
+  · cases h
+  · split at h
+    · cases h
+    · simp only [Out.path.injEq] at h
+      rw [← h.1]
+      unfold runBackwardT
+      cases hp : o.flags.pred t with
+      | none => intro h'; cases h'
+      | some p =>
+        simp only []
+        apply backAuxT_ends (netOf o) (geoOf o) o.flags rk
+          (fun v a i hv => ⟨(c1 v a i hv).1, findEdge_isSome o i (c1 v a i hv).2⟩) c3
+        · show 1 ≤ o.n + 1
+          omega
+        · intro a i hpa
+          have := c2 a (c1 t a i hpa).1
+          show rk a + 2 ≤ o.n + 1
+          omega
+
+theorem chainOK_of_flags (o o' : Obj W) (hc : ChainOK o) (hf : o'.flags = o.flags) (hn : o'.n = o.n)
+    (he : ∀ i, hasEdge o i = true → hasEdge o' i = true) : ChainOK o' := by
+  obtain ⟨rk, c1, c2, c3⟩ := hc
+  refine ⟨rk, ?_, ?_, ?_⟩
+  · intro v a i h; rw [hf] at h ⊢; exact ⟨(c1 v a i h).1, he i (c1 v a i h).2⟩
+  · intro a h; rw [hf] at h; rw [hn]; exact c2 a h
+  · intro v a i h hv; rw [hf] at h hv; exact c3 v a i h hv
+
+theorem hasEdge_updEdge (o : Obj W) (f : Edge W → Edge W) (hf : ∀ e, (f e).id = e.id) (j i : Nat) (nodes : List (Nat × Seq.Obs))
+    (g : Nat → Seq.Track) (h : hasEdge o i = true) :
+    hasEdge ({ o with nb := { o.nb with edges := updEdge f j o.nb.edges, nodes := nodes }, geom := g } : Obj W) i = true := by
+  unfold hasEdge at h ⊢
+  obtain ⟨e, he, hid⟩ := List.any_eq_true.1 h
+  apply List.any_eq_true.2
+  refine ⟨if e.id = j then f e else e, ?_, ?_⟩
+  · unfold updEdge; exact List.mem_map.2 ⟨e, he, rfl⟩
+  · split
+    · rw [hf e]; exact hid
+    · exact hid
+
+end history
+
+section history2
+variable {W : Type} [LinearOrder W] [Add W] [Zero W] [WalkAdd W]
+
+theorem chainOK_reset (o : Obj W) (h : o.flags = GraphExt.resetFlags none) : ChainOK o := by
+  refine ⟨fun _ => 0, ?_, ?_, ?_⟩
+  · intro v a i hp; rw [h] at hp; simp [GraphExt.resetFlags] at hp
+  · intro a hv; rw [h] at hv; simp [GraphExt.resetFlags] at hv
+  · intro v a i hp; rw [h] at hp; simp [GraphExt.resetFlags] at hp
+
+theorem chainOK_new (n : Nat) : ChainOK (Obj.new n : Obj W) := chainOK_reset _ rfl
+
+theorem search_chainOK (o : Obj W) (hi : Inv o) (s : Nat) (t : Option Nat) (cut : Option W) (ud : Bool) :
+    ChainOK (search o s t cut ud) := by
+  by_cases hs : registered o s = true
+  · rw [search_spec o hi s hs]
+    have hlt := registered_lt o hi s hs
+    obtain ⟨hinv, rk, K, hp⟩ : Good (netOf o) s (runForward (netOf o) s t cut).1 :=
+      forward_good (netOf o) hi.wf s t cut (netOf o).n _ [] (good_init (netOf o) s hlt)
+    refine ⟨rk, ?_, ?_, ?_⟩
+    · intro v a i h
+      obtain ⟨_, hva, e, he, hid, _⟩ := hp.p2 v a i h
+      refine ⟨hva, ?_⟩
+      have hmem : e ∈ o.nb.edges := by simp only [nextEdges, List.mem_filter] at he; exact he.1
+      unfold hasEdge
+      exact List.any_eq_true.2 ⟨e, hmem, by simp [hid]⟩
+    · intro a h
+      have h4 := hp.p4 a h
+      have h6 := hp.p6
+      show rk a < (netOf o).n
+      omega
+    · intro v a i h hv; exact hp.p5 v a i h hv
+  · unfold search
+    rw [if_neg hs]
+    exact chainOK_reset _ rfl
+
+theorem exec_chainOK (o : Obj W) (hi : Inv o) (hc : ChainOK o) (op : Op W) : ChainOK (exec o op).1 := by
+  cases op with
+  | addNode v c =>
+    simp only [exec]
+    split
+    · refine chainOK_of_flags o _ hc rfl rfl (fun i h => ?_)
+      unfold hasEdge at h ⊢
+      show (GraphExt.addNode o.nb v c).edges.any _ = true
+      rw [(addNode_edges o.nb v c).1]; exact h
+    · exact hc
+  | addEdge e sc tc g =>
+    simp only [exec]
+    split
+    · refine chainOK_of_flags o _ hc rfl rfl (fun i h => ?_)
+      unfold hasEdge at h ⊢
+      show (GraphExt.addEdge o.nb e sc tc).edges.any _ = true
+      rw [addEdge_edges, List.any_append, h]; rfl
+    · exact hc
+  | setWeight i w =>
+    simp only [exec]
+    split
+    · exact hc
+    · split
+      · exact hc
+      · exact chainOK_of_flags o _ hc rfl rfl (fun j h => hasEdge_updEdge o (fun e => { e with w := w }) (fun e => rfl) i j o.nb.nodes o.geom h)
+  | setOri i x =>
+    simp only [exec]
+    split
+    · exact hc
+    · exact chainOK_of_flags o _ hc rfl rfl (fun j h => hasEdge_updEdge o (fun e => { e with ori := x }) (fun e => rfl) i j o.nb.nodes o.geom h)
+  | setGeom i g =>
+    simp only [exec]
+    split
+    · exact hc
+    · exact chainOK_of_flags o _ hc rfl rfl (fun j h => h)
+  | setCoord v c =>
+    simp only [exec]
+    split
+    · exact hc
+    · exact chainOK_of_flags o _ hc rfl rfl (fun j h => h)
+  | path s t cut ud =>
+    simp only [exec]
+    split <;> exact search_chainOK o hi _ _ cut ud
+  | dist s t cut ud =>
+    simp only [exec]
+    split
+    · exact search_chainOK o hi _ _ cut ud
+    · split
+      · split <;> exact search_chainOK o hi _ _ cut ud
+      · exact search_chainOK o hi _ _ cut ud
+  | fwd s t cut ud =>
+    simp only [exec]
+    split <;> exact search_chainOK o hi _ _ cut ud
+  | back t => exact hc
+
+/-- what a `.path` output never is -/
+def Out.ends : Out W → Prop
+  | .path b _ => b ≠ .diverge
+  | _ => True
+
+theorem exec_ends (o : Obj W) (hi : Inv o) (hc : ChainOK o) (op : Op W) : (exec o op).2.ends := by
+  cases op with
+  | path s t cut ud =>
+    simp only [exec]
+    split
+    · have hc' := search_chainOK o hi (correctInputNode s) (some (correctInputNode t)) cut ud
+      generalize hb : backward (search o (correctInputNode s) (some (correctInputNode t)) cut ud) (correctInputNode t) = out
+      cases out with
+      | path b lab => exact backward_ends _ hc' _ b lab hb
+      | _ => trivial
+    · trivial
+  | back t =>
+    simp only [exec]
+    generalize hb : backward o (correctInputNode t) = out
+    cases out with
+    | path b lab => exact backward_ends _ hc _ b lab hb
+    | _ => trivial
+  | addNode v c => simp only [exec]; split <;> trivial
+  | addEdge e sc tc g => simp only [exec]; split <;> trivial
+  | setWeight i w => simp only [exec]; split; trivial; split <;> trivial
+  | setOri i x => simp only [exec]; split <;> trivial
+  | setGeom i g => simp only [exec]; split <;> trivial
+  | setCoord v c => simp only [exec]; split <;> trivial
+  | dist s t cut ud =>
+    simp only [exec]
+    split
+    · trivial
+    · split
+      · split <;> trivial
+      · trivial
+  | fwd s t cut ud => simp only [exec]; split <;> trivial
+
+/-- in ANY sequence of calls on a new network — modifications, orientation assignments, searches, backward passes on flags
+of any age — no `run_routing_backward` / `shortest_path` loops for ever -/
+theorem runOps_ends : ∀ (ops : List (Op W)) (o o0 : Obj W), OriEq o o0 → Inv o0 → ChainOK o0 →
+    ∀ out ∈ (runOps o ops).1, out.ends := by
+  intro ops
+  induction ops with
+  | nil => intro o o0 _ _ _ out h; cases h
+  | cons op ops ih =>
+    intro o o0 he hi hc out h
+    simp only [runOps, List.mem_cons] at h
+    cases hop : op.isSetOri with
+    | true =>
+      cases op with
+      | setOri i x =>
+        rcases h with rfl | h
+        · simp only [exec]; split <;> trivial
+        · exact ih _ o0 ((setOri_oriEq o i x).trans he) hi hc out h
+      | _ => cases hop
+    | false =>
+      obtain ⟨h1, h2⟩ := exec_oriEq o o0 he op
+      rcases h with rfl | h
+      · rw [h2]; exact exec_ends o0 hi hc op
+      · exact ih _ _ h1 (exec_inv o0 hi op hop) (exec_chainOK o0 hi hc op) out h
+
+end history2
 end TV.GraphMut
